@@ -521,6 +521,10 @@ func (r *Rig) Exec(idx int, st *Step, prev *Step) *Drift {
 		}
 		delete(r.conn.Messages, r.remote[m])
 		delete(r.remote, m)
+	case "ConnUpdateSame", "ConnBad", "ConnCreateDup", "ConnIDChanged":
+		if d := r.connOther(idx, st, prev); d != nil {
+			return d
+		}
 	default:
 		return r.drift(idx, "harness", "unknown action %q", st.Act)
 	}
@@ -710,6 +714,166 @@ func (r *Rig) connSetBoxes(idx int, st *Step, prev *Step) *Drift {
 		}
 	}
 	return nil
+}
+
+func flagSet(fl []string) imap.FlagSet {
+	fs := imap.NewFlagSet()
+	for _, f := range fl {
+		fs.AddToSelf("\\" + f)
+	}
+	return fs
+}
+
+// submit sends one connector update and compares the acknowledgement class with the specification.
+func (r *Rig) submit(idx int, st *Step, what string, u imap.Update) *Drift {
+	err := r.conn.Submit(u, 10*time.Second)
+	r.logf("[conn] %s -> %v", what, err)
+	if err == fixture.ErrNoAck {
+		r.find("C06", "C06/not-acknowledged/"+st.Act, fmt.Sprintf("step %d %s: the update was never acknowledged (%s)", idx, st.Describe(), what), idx)
+		return r.drift(idx, "ack", "%s was never acknowledged", what)
+	}
+	if (err != nil) != (st.Status == "ERR") {
+		return r.drift(idx, "ack", "%s acknowledged with %v, specification predicts %s", what, err, st.Status)
+	}
+	return nil
+}
+
+func (r *Rig) connOther(idx int, st *Step, prev *Step) *Drift {
+	parse := func(m string) (*imap.ParsedMessage, []byte) {
+		lit := Literal(m)
+		p, _ := imap.NewParsedMessage(lit)
+		return p, lit
+	}
+	boxIDs := func(bs []string) []imap.MailboxID {
+		var ids []imap.MailboxID
+		for _, b := range bs {
+			ids = append(ids, r.boxID[b])
+		}
+		return ids
+	}
+	const recovery = imap.MailboxID("GLUON-INTERNAL-RECOVERY-MBOX")
+	switch st.Act {
+	case "ConnUpdateSame":
+		m, boxes, fl := st.ArgStr(0), st.ArgStrs(1), st.ArgStrs(2)
+		vm := r.conn.Messages[r.remote[m]]
+		if vm == nil {
+			return r.drift(idx, "harness", "no literal known for %s", m)
+		}
+		p, err := imap.NewParsedMessage(vm.Literal)
+		if err != nil {
+			return r.drift(idx, "harness", "%v", err)
+		}
+		return r.submit(idx, st, fmt.Sprintf("MessageUpdated(same literal) %s -> %v %v", m, boxes, fl),
+			imap.NewMessageUpdated(imap.Message{ID: r.remote[m], Flags: flagSet(fl), Date: vm.Date}, vm.Literal, boxIDs(boxes), p, false))
+	case "ConnCreateDup":
+		m, boxes := st.ArgStr(0), st.ArgStrs(1)
+		vm := r.conn.Messages[r.remote[m]]
+		if vm == nil {
+			return r.drift(idx, "harness", "no literal known for %s", m)
+		}
+		p, err := imap.NewParsedMessage(vm.Literal)
+		if err != nil {
+			return r.drift(idx, "harness", "%v", err)
+		}
+		return r.submit(idx, st, fmt.Sprintf("MessagesCreated(duplicate) %s in %v", m, boxes),
+			imap.NewMessagesCreated(false, &imap.MessageCreated{Message: imap.Message{ID: r.remote[m], Flags: imap.NewFlagSet(), Date: vm.Date},
+				Literal: vm.Literal, MailboxIDs: boxIDs(boxes), ParsedMessage: p}))
+	case "ConnIDChanged":
+		m := st.ArgStr(0)
+		// the internal id of m: from any session's snapshot is not enough (m may be nowhere selected): read X-Pm-Gluon-Id
+		iid, err := r.internalID(m, prev)
+		if err != nil {
+			// not locatable through IMAP right now (in no mailbox): the step is skipped by sending a Noop
+			return r.submit(idx, st, "Noop (message in no mailbox, id change skipped)", imap.NewNoop())
+		}
+		newID := imap.MessageID(string(r.remote[m]) + "'")
+		if d := r.submit(idx, st, fmt.Sprintf("MessageIDChanged %s -> %s", m, newID), imap.NewMessageIDChanged(iid, newID)); d != nil {
+			return d
+		}
+		if vm := r.conn.Messages[r.remote[m]]; vm != nil {
+			delete(r.conn.Messages, r.remote[m])
+			vm.ID = newID
+			r.conn.Messages[newID] = vm
+		}
+		r.remote[m] = newID
+		return nil
+	case "ConnBad":
+		k := st.ArgStr(0)
+		p, lit := parse("zz")
+		var u imap.Update
+		switch k {
+		case "Noop":
+			u = imap.NewNoop()
+		case "FlagsUnknownMsg":
+			u = imap.NewMessageFlagsUpdated("no-such-message", imap.NewFlagSet("\\Seen"))
+		case "BoxesUnknownMsg":
+			u = imap.NewMessageMailboxesUpdated("no-such-message", boxIDs(r.opt.Boxes[:1]), imap.NewFlagSet())
+		case "DeleteUnknownMsg":
+			u = imap.NewMessagesDeleted("no-such-message")
+		case "CreateUnknownBox":
+			u = imap.NewMessagesCreated(false, &imap.MessageCreated{Message: imap.Message{ID: "bad-create-1", Flags: imap.NewFlagSet(), Date: time.Unix(760000000, 0)},
+				Literal: lit, MailboxIDs: []imap.MailboxID{"no-such-mailbox"}, ParsedMessage: p})
+		case "BoxesIntoRecovery":
+			// needs an existing message: take any known one, else an unknown id (also an error)
+			id := imap.MessageID("no-such-message")
+			for _, rid := range r.remote {
+				id = rid
+				break
+			}
+			u = imap.NewMessageMailboxesUpdated(id, []imap.MailboxID{recovery}, imap.NewFlagSet())
+		case "CreateIntoRecovery":
+			u = imap.NewMessagesCreated(false, &imap.MessageCreated{Message: imap.Message{ID: "bad-create-2", Flags: imap.NewFlagSet(), Date: time.Unix(760000000, 0)},
+				Literal: lit, MailboxIDs: []imap.MailboxID{recovery}, ParsedMessage: p})
+		case "MailboxCreatedDup":
+			b := r.opt.Boxes[0]
+			u = imap.NewMailboxCreated(imap.Mailbox{ID: r.boxID[b], Name: []string{b}, Flags: r.conn.Flags, PermanentFlags: r.conn.PermFlags, Attributes: r.conn.Attrs})
+		case "MailboxDeletedRecovery":
+			u = imap.NewMailboxDeleted(recovery)
+		case "MailboxDeletedUnknown":
+			u = imap.NewMailboxDeleted("no-such-mailbox")
+		case "MailboxUpdatedUnknown":
+			u = imap.NewMailboxUpdated("no-such-mailbox", []string{"whatever"})
+		case "UpdatedUnknownNoCreate":
+			u = imap.NewMessageUpdated(imap.Message{ID: "no-such-message", Flags: imap.NewFlagSet(), Date: time.Unix(760000000, 0)}, lit, boxIDs(r.opt.Boxes[:1]), p, false)
+		default:
+			return r.drift(idx, "harness", "unknown bad-update kind %q", k)
+		}
+		return r.submit(idx, st, k, u)
+	}
+	return nil
+}
+
+var reGluonID = regexp.MustCompile(`(?i)X-Pm-Gluon-Id: ([0-9a-fA-F-]+)`)
+
+// internalID finds gluon's internal id of model message m through a fresh session (it is in the id header).
+func (r *Rig) internalID(m string, prev *Step) (imap.InternalMessageID, error) {
+	if prev == nil {
+		return imap.InternalMessageID{}, fmt.Errorf("no state")
+	}
+	for _, b := range r.opt.Boxes {
+		for _, e := range prev.DB[b] {
+			if e.M != m {
+				continue
+			}
+			oc, err := wire.Dial(r.srv.Addr)
+			if err != nil {
+				return imap.InternalMessageID{}, err
+			}
+			defer oc.Close()
+			oc.Login("user", "pass")
+			oc.Cmd("EXAMINE " + b)
+			res := oc.Cmd(fmt.Sprintf("UID FETCH %d (BODY.PEEK[HEADER])", e.UID))
+			oc.Cmd("LOGOUT")
+			for _, l := range res.Untagged {
+				for _, lit := range l.Lits {
+					if mm := reGluonID.FindSubmatch(lit); mm != nil {
+						return imap.InternalMessageIDFromString(string(mm[1]))
+					}
+				}
+			}
+		}
+	}
+	return imap.InternalMessageID{}, fmt.Errorf("not found")
 }
 
 // probeAgainstMirror: C01's own predicate on real data - what the client reconstructed must agree with
